@@ -356,3 +356,41 @@ def check_as_configured(R, rule, W, sm, fields):
             continue
         R.check(rule, "as-configured:" + f, v == "param1.0." + src, "build() hands the configured %s to the state machine untouched" % src,
                 "build() does not hand the builder's %s to the state machine as configured: %s <- %s" % (src, f, v[:160]))
+
+
+def async_callees(W, bv):
+    """[(block, call terminator, coroutine BV)] for the local `async fn`s called (their future created) in bv."""
+    from .core import BV
+    out = []
+    for bi, t in bv.calls():
+        cid = t.get("resolved_id") or t.get("callee_id")
+        cb = W.by_id.get((cid or "") + "::{closure#0}")
+        if cid in W.by_id and cb is not None and cb.get("kind") == "coroutine":
+            out.append((bi, t, BV.of(cb)))
+    return out
+
+
+def async_param_to_arg(W, bv, t, cv, term):
+    """A term of the async helper's body cv that is one of its captured parameters (`param1.k`, possibly dereferenced or
+    borrowed) -> the caller's term for the argument handed in at call terminator t of bv; None if it is not one."""
+    from .core import BV
+    x = strip_refs(term)
+    while x[0] == "deref":
+        x = strip_refs(x[1])
+    if not (x[0] == "field" and strip_refs(x[1]) == ("param", 1) and isinstance(x[3] if len(x) > 3 else None, int)):
+        return None
+    k = x[3]
+    wid = cv.body.get("parent")
+    wb = W.by_id.get(wid)
+    if wb is None:
+        return None
+    wv = BV.of(wb)
+    for bi in wv.reach0:
+        for s_ in wv.blocks[bi]["s"]:
+            if s_["k"] == "assign" and s_["r"]["k"] == "agg" and s_["r"].get("id") == cv.id:
+                ops = s_["r"]["ops"]
+                if k < len(ops):
+                    src = strip_refs(wv.trace_op(ops[k]))
+                    if src[0] == "param" and src[1] - 1 < len(t.get("args", [])):
+                        return bv.trace_op(t["args"][src[1] - 1])
+    return None
